@@ -1,0 +1,142 @@
+// Copyright 2026 The Go Authors. All rights reserved.
+// Use of this source code is governed by a BSD-style
+// license that can be found in the LICENSE file.
+
+//go:build verif
+
+package ssh
+
+// Verification hooks (build tag "verif" only): exported access to the key
+// exchange algorithms (client and server halves over a caller-provided packet
+// pipe), to the host key signature check of the client handshake, and to the
+// DH group choice of the group-exchange server, for model-based conformance
+// checking.
+
+import (
+	"crypto"
+	"errors"
+	"io"
+	"net"
+	"sort"
+)
+
+// VerifKexConn is the exported twin of packetConn.
+type VerifKexConn interface {
+	WritePacket(packet []byte) error
+	ReadPacket() ([]byte, error)
+	Close() error
+}
+
+// verifKexConn adapts a VerifKexConn to keyingTransport (the key change
+// notifications are not part of a kexAlgorithm run and are ignored).
+type verifKexConn struct{ c VerifKexConn }
+
+func (a verifKexConn) writePacket(p []byte) error                               { return a.c.WritePacket(p) }
+func (a verifKexConn) readPacket() ([]byte, error)                              { return a.c.ReadPacket() }
+func (a verifKexConn) Close() error                                             { return a.c.Close() }
+func (a verifKexConn) prepareKeyChange(*NegotiatedAlgorithms, *kexResult) error { return nil }
+func (a verifKexConn) setStrictMode() error                                     { return nil }
+func (a verifKexConn) setInitialKEXDone()                                       {}
+
+// VerifKexMagics mirrors handshakeMagics.
+type VerifKexMagics struct {
+	ClientVersion, ServerVersion []byte
+	ClientKexInit, ServerKexInit []byte
+}
+
+func (m *VerifKexMagics) magics() *handshakeMagics {
+	return &handshakeMagics{
+		clientVersion: m.ClientVersion, serverVersion: m.ServerVersion,
+		clientKexInit: m.ClientKexInit, serverKexInit: m.ServerKexInit,
+	}
+}
+
+// VerifKexResult mirrors kexResult.
+type VerifKexResult struct {
+	H, K      []byte
+	HostKey   []byte
+	Signature []byte
+	Hash      crypto.Hash
+}
+
+func verifKexResult(r *kexResult) *VerifKexResult {
+	if r == nil {
+		return nil
+	}
+	return &VerifKexResult{H: r.H, K: r.K, HostKey: r.HostKey, Signature: r.Signature, Hash: r.Hash}
+}
+
+// VerifKexNames returns the names of the supported key exchange algorithms.
+func VerifKexNames() []string {
+	var names []string
+	for n := range kexAlgoMap {
+		names = append(names, n)
+	}
+	sort.Strings(names)
+	return names
+}
+
+// VerifKexClientHalf runs kexAlgorithm.Client of the named algorithm: the
+// exchange without the host key signature check.
+func VerifKexClientHalf(name string, c VerifKexConn, rand io.Reader, m *VerifKexMagics) (*VerifKexResult, error) {
+	kex, ok := kexAlgoMap[name]
+	if !ok {
+		return nil, errors.New("ssh: verif: unknown kex " + name)
+	}
+	r, err := kex.Client(verifKexConn{c}, rand, m.magics())
+	return verifKexResult(r), err
+}
+
+// VerifKexClient runs handshakeTransport.client for the named algorithm:
+// kexAlgorithm.Client, ParsePublicKey of the received host key,
+// verifyHostKeySignature for the negotiated host key algorithm, and the
+// host key callback.
+func VerifKexClient(name string, c VerifKexConn, rand io.Reader, m *VerifKexMagics, hostKeyAlgo string, cb HostKeyCallback, dialAddress string, remote net.Addr) (*VerifKexResult, error) {
+	kex, ok := kexAlgoMap[name]
+	if !ok {
+		return nil, errors.New("ssh: verif: unknown kex " + name)
+	}
+	t := &handshakeTransport{
+		conn:            verifKexConn{c},
+		config:          &Config{Rand: rand},
+		algorithms:      &NegotiatedAlgorithms{KeyExchange: name, HostKey: hostKeyAlgo},
+		hostKeyCallback: cb,
+		dialAddress:     dialAddress,
+		remoteAddr:      remote,
+	}
+	r, err := t.client(kex, m.magics())
+	return verifKexResult(r), err
+}
+
+// VerifKexServer runs handshakeTransport.server for the named algorithm:
+// pickHostKey among hostKeys for the negotiated host key algorithm, then
+// kexAlgorithm.Server.
+func VerifKexServer(name string, c VerifKexConn, rand io.Reader, m *VerifKexMagics, hostKeys []Signer, hostKeyAlgo string) (*VerifKexResult, error) {
+	kex, ok := kexAlgoMap[name]
+	if !ok {
+		return nil, errors.New("ssh: verif: unknown kex " + name)
+	}
+	t := &handshakeTransport{
+		conn:       verifKexConn{c},
+		config:     &Config{Rand: rand},
+		algorithms: &NegotiatedAlgorithms{KeyExchange: name, HostKey: hostKeyAlgo},
+		hostKeys:   hostKeys,
+	}
+	r, err := t.server(kex, m.magics())
+	return verifKexResult(r), err
+}
+
+// VerifKexVerifyHostKeySignature exports verifyHostKeySignature.
+func VerifKexVerifyHostKeySignature(hostKey PublicKey, algo string, r *VerifKexResult) error {
+	return verifyHostKeySignature(hostKey, algo, &kexResult{H: r.H, K: r.K, HostKey: r.HostKey, Signature: r.Signature, Hash: r.Hash})
+}
+
+// VerifKexChooseDH exports chooseDH: the bit length of the group chosen for
+// a group-exchange request (0 and an error if there is none).
+func VerifKexChooseDH(minBits, preferredBits, maxBits uint32) (int, error) {
+	p, err := chooseDH(kexDHGexRequestMsg{MinBits: minBits, PreferredBits: preferredBits, MaxBits: maxBits})
+	if err != nil {
+		return 0, err
+	}
+	return p.BitLen(), nil
+}
